@@ -50,5 +50,73 @@ pub fn div(a: &ER, c: &ER) -> (r: Option<i32>)
 //@|     lemma_cancel(av, rmul(m, cv), p);              // a == m c
 //@|     assert(dvd(cv, av));
 //@| }
+/// SpVec<R>: ASSUMED sparse vector whose iterator lists the stored entries (index, value), possibly with explicit zeros
+pub struct SpVec { pub es: Ghost<Seq<int>> }
+pub struct SVIter<'a> { pub src: &'a SpVec, pub pos: Ghost<int> }
+impl SpVec {
+    #[verifier::external_body] pub fn iter(&self) -> (r: SVIter<'_>) ensures r.src == self, r.pos@ == 0 { unimplemented!() }
+}
+impl<'a> SVIter<'a> {
+    pub fn into_iter(self) -> (r: Self) ensures r == self { self }
+    #[verifier::external_body] pub fn next(&mut self) -> (r: Option<(usize, &'a ER)>)
+        requires 0 <= old(self).pos@ <= old(self).src.es@.len()
+        ensures final(self).src == old(self).src,
+            old(self).pos@ < old(self).src.es@.len() ==> (final(self).pos@ == old(self).pos@ + 1 && r.is_some() && r.unwrap().1.v() == old(self).src.es@[old(self).pos@]),
+            old(self).pos@ >= old(self).src.es@.len() ==> (final(self).pos@ == old(self).pos@ && r.is_none()),
+    { unimplemented!() }
+}
+/// exact valuation: c^k | a and not c^(k+1) | a
+pub open spec fn val_is(a: int, c: int, k: int) -> bool { a != r0() && k >= 0 && dvd(rpow(c, k as nat), a) && !dvd(rpow(c, (k + 1) as nat), a) }
+/// c^k | a and j <= k  ==>  c^j | a
+pub proof fn lemma_pow_dvd_mono(c: int, j: nat, k: nat, a: int) requires j <= k, dvd(rpow(c, k), a) ensures dvd(rpow(c, j), a) decreases k - j
+{
+    if j < k {
+        // c^(k-1) | c^k | a
+        let p = rpow(c, (k - 1) as nat);
+        ax_mul_comm(p, c); assert(rpow(c, k) == rmul(c, p));
+        assert(dvd(p, rpow(c, k)));
+        lemma_dvd_trans(p, rpow(c, k), a);
+        lemma_pow_dvd_mono(c, j, (k - 1) as nat, a);
+    }
+}
+/// the c-divisibility of a vector: the largest k with c^k | every entry (None for the zero vector)
+pub fn div_vec(v: &SpVec, c: &ER) -> (r: Option<i32>)
+    requires c.v() != r0(), !is_unit(c.v()), forall|i: int| 0 <= i < v.es@.len() ==> rnorm(#[trigger] v.es@[i]) < 0x7fff_ffff,
+    ensures match r {
+        None => forall|i: int| 0 <= i < v.es@.len() ==> #[trigger] v.es@[i] == r0(),
+        Some(k) => k >= 0 && (exists|i: int| 0 <= i < v.es@.len() && val_is(#[trigger] v.es@[i], c.v(), k as int))
+            && forall|i: int| 0 <= i < v.es@.len() && #[trigger] v.es@[i] != r0() ==> dvd(rpow(c.v(), k as nat), v.es@[i]),
+    },
+//@body fn/div_vec for_iter=1 loops=1
+//@+ sig
+//@| fn div_vec<R>(v: &SpVec<R>, c: &R) -> Option<i32> where R: EucRing, for<'x> &'x R: EucRingOps<R>
+//@+ loop 0 header
+//@| v.iter().filter_map(|(_, a)|
+//@+ loop 0 elem
+//@| i32
+//@+ loop 0
+//@| invariant __it0.src == v, 0 <= __it0.pos@ <= v.es@.len(), c.v() != r0(), !is_unit(c.v()),
+//@|     forall|i: int| 0 <= i < v.es@.len() ==> rnorm(#[trigger] v.es@[i]) < 0x7fff_ffff,
+//@|     __min0.is_none() ==> forall|i: int| 0 <= i < __it0.pos@ ==> #[trigger] v.es@[i] == r0(),
+//@|     __min0.is_some() ==> (__min0.unwrap() >= 0 && (exists|i: int| 0 <= i < __it0.pos@ && val_is(#[trigger] v.es@[i], c.v(), __min0.unwrap() as int))
+//@|         && forall|i: int| 0 <= i < __it0.pos@ && #[trigger] v.es@[i] != r0() ==> dvd(rpow(c.v(), __min0.unwrap() as nat), v.es@[i])),
+//@| ensures __it0.pos@ == v.es@.len(),
+//@| decreases v.es@.len() - __it0.pos@,
+//@+ loop 0 begin-raw
+//@| let ghost m0 = __min0;
+//@+ loop 0 end
+//@| let p = __it0.pos@ - 1; let cv = c.v();
+//@| assert(a.v() == v.es@[p]);
+//@| if a.v() != r0() {
+//@|     let k = __min0.unwrap() as int;
+//@|     assert(exists|i: int| 0 <= i < __it0.pos@ && val_is(#[trigger] v.es@[i], cv, k)) by {
+//@|         if m0.is_some() && m0.unwrap() == __min0.unwrap() { let i0 = choose|i: int| 0 <= i < p && val_is(#[trigger] v.es@[i], cv, m0.unwrap() as int); assert(val_is(v.es@[i0], cv, k)); }
+//@|         else { assert(val_is(v.es@[p], cv, k)); }
+//@|     }
+//@|     assert forall|i: int| 0 <= i < __it0.pos@ && #[trigger] v.es@[i] != r0() implies dvd(rpow(cv, k as nat), v.es@[i]) by {
+//@|         if i < p { lemma_pow_dvd_mono(cv, k as nat, m0.unwrap() as nat, v.es@[i]); }
+//@|         else { lemma_pow_dvd_mono(cv, k as nat, __r0.unwrap() as nat, v.es@[p]); }
+//@|     }
+//@| }
 } // verus!
 fn main() {}
